@@ -63,6 +63,20 @@ CHECKS = {
                      "compute_beta on 131-311 probabilities; 282 gamma_L cases.",
                 note="Early-failure reporting (n_times = 0, cycles accumulated while below one) pinned to the class documentation; normal-distribution gamma_L judged against the documented formula.",
                 ref="3 C09"),
+    "C10": dict(cat="exploration", tech="exhaustive enumeration of batch compositions, single insertions and monotone parameter lines over a template menu of the real assessment pipeline (differential / metamorphic oracles)",
+                text="perform_fkm_nonlinear_assessment (about 1 s per call) is run for every ordered selection of load ratios (incl. equal ratios, near-endurance ratios, "
+                     "uniform and per-point gradient) and compared point by point with single-point calls (rtol 1e-9, verdicts ==); for every single insertion of a repeated "
+                     "value or midpoint into every cyclic gap (junction on both sides) of every template; along lines of load scale x R_z x P_A (lifetime never increases, "
+                     "verdict never turns infinite, N_10 <= N_50 <= N_90). 3 (thorough 6) templates x 1 (4) parameter sets.",
+                note="Small but complete space (151 / 1700 cases); rainflow_ext rebuilt from the working tree; a midpoint prepended outside [0, s0] is a reversal of pass 1 and is excluded.",
+                ref="3 C10"),
+    "C11": dict(cat="exploration", tech="exhaustive enumeration of all cycle vectors over {0,1,5000}^4 (5 classes thorough) x class limits x curves x load levels, metamorphic clauses",
+                text="Every cycle vector (every pattern of empty classes at top, bottom and in between) on regular, irregular and five-class limits, as LoadHistogram, LoadCollective "
+                     "and histogram with a mean level, at load levels 0.5..3 incl. collectives entirely below SD and knees exactly on a class amplitude: damage additive over all "
+                     "splits and over counts, proportional, order independent (24 permutations), original <= Haibach <= elementary member-wise, Gassner cycles => damage 1 "
+                     "(rtol 1e-9) for both Miner accessors with and without k_2, 0.3 <= D_m <= 1.",
+                note="No reference model: all clauses are relations between runs of the real code.",
+                ref="3 C11"),
     "C12": dict(cat="exploration", tech="exhaustive lattice enumeration of (amplitude, mean, diagram, R_goal, R_1 -> R_2 paths) against a closed-form Haigh reference; exhaustive small rainflow matrices",
                 text="All cycles of an (amplitude x mean) lattice hitting R = -inf, -1, 0, R12, R23, > 1 exactly x 4 Goodman and 4-16 five-segment diagrams x 12-18 targets: "
                      "Goodman closed form, path independence over all (R_1, R_2), idempotence, fixed points, continuity at every segment border and monotonicity, agreement of "
